@@ -44,7 +44,7 @@ func affine(f *eng.Fn, e ast.Expr) string {
 			walk(be.Y, s2)
 			return
 		}
-		terms = append(terms, sign+f.Norm(e, nil))
+		terms = append(terms, sign+affineTerm(f, e))
 	}
 	walk(e, "+")
 	sort.Strings(terms)
@@ -107,8 +107,14 @@ func runC11(p *eng.Prog, r *eng.Report, tier string) {
 				sl, isSlice := arg.(*ast.SliceExpr)
 				okArg := false
 				if isSlice {
-					if v := rootLocal(f, sl.X); v != nil && v.Name() == "data" {
-						okArg = true
+					// the buffer the constructor builds (role: a byte slice local
+					// allocated here and appended to), not a parameter
+					if v := rootLocal(f, sl.X); v != nil && eng.TypeStr(v.Type()) == "[]byte" {
+						if _, isParam := c11ParamIndex(f, v); !isParam {
+							if okf, _ := freshSlice(f, sl.X, pt, map[*eng.Def]bool{}); okf {
+								okArg = true
+							}
+						}
 					}
 				}
 				c.r.Check("C11.2", f, callee+" argument", "P: the check is applied to the enforced (normalised) bytes, not to the raw input", cl.Pos(), okArg, "argument is "+f.Norm(arg, &pt))
@@ -475,4 +481,36 @@ func c11ParamIndex(f *eng.Fn, v *types.Var) (int, bool) {
 		}
 	}
 	return 0, false
+}
+
+// affineTerm prints one term of an affine form independently of how locals
+// are spelled: a local all of whose definitions are results of the same callee
+// is printed as def:<callee>, any other plain local by its type only.
+func affineTerm(f *eng.Fn, e ast.Expr) string {
+	if id, ok := ast.Unparen(e).(*ast.Ident); ok {
+		if v, ok := f.Info().ObjectOf(id).(*types.Var); ok && eng.IsLocal(v) {
+			if n := f.LocalName(v); n != v.Name() {
+				return f.Norm(e, nil) // parameter / result: positional already
+			}
+			callee := ""
+			same := true
+			for _, d := range f.Graph().DefsOf(v) {
+				cid := ""
+				if d.RHS != nil {
+					if call, ok := ast.Unparen(d.RHS).(*ast.CallExpr); ok {
+						cid = f.CalleeID(call)
+					}
+				}
+				if cid == "" || (callee != "" && cid != callee) {
+					same = false
+				}
+				callee = cid
+			}
+			if same && callee != "" {
+				return "def:" + callee
+			}
+			return "local<" + eng.TypeStr(v.Type()) + ">"
+		}
+	}
+	return f.Norm(e, nil)
 }
